@@ -232,9 +232,9 @@ def model_check(ctx):
         reorder = sub(reorder, Win=3)
     ctx.mc("TcpLoopMC", reorder, "tcp", required_actions=LOOP_ACTS, label="TcpLoopMC/safe, reordering paths", workers=WORKERS,
            timeout=1500)
-    if big:
-        ctx.mc("TcpLoopMC", sub(live, Fifos="{0}"), "tcp", required_actions=LOOP_ACTS, label="TcpLoopMC/live(Delivers), reordering paths",
-               workers=WORKERS, timeout=1500)
+    # (No liveness run for reordering paths: weak fairness of "some packet in flight arrives" does not give every packet
+    #  its finite delay -- a bag of packets fed by retransmissions can starve one of them -- and TLC has no fairness per
+    #  element of a growing bag.  On the implementation side every jitter-path run must end with everything delivered.)
     # NoCrash is not vacuous: with the ACK handling of finding F14 TLC itself finds the history that raises
     rd = tlc.run("TcpLoopMC", "TcpLoopMC_dev.cfg", tlc.SPEC + "/tcp", workers=min(WORKERS, 4), timeout=600, coverage=False)
     if rd.violated != "NoCrash":
